@@ -316,13 +316,24 @@ func peerRun() (res peerResult) {
 		}
 	}
 	// ---- transform: DatasetSource -> HttpTransform -> DatasetSink
+	type trCase struct {
+		mode string
+		jt   string
+		ctx  bool
+	}
+	var trCases []trCase
 	for _, mode := range []string{"ok", "fail-first-request"} {
+		trCases = append(trCases, trCase{mode, "incremental", false})
+	}
+	trCases = append(trCases, trCase{"ok", "fullsync", false}, trCase{"ok", "incremental", true}, trCase{"ok", "fullsync", true})
+	for _, tc := range trCases {
+		mode := tc.mode
 		for _, sz := range []int{1, 3, 5} {
 			for _, b := range batches {
 				n++
 				res.Cases++
 				lds, zds := fmt.Sprintf("t%d", n), fmt.Sprintf("u%d", n)
-				cfg := fmt.Sprintf("transform endpoint=%s entities=%d batch=%d", mode, sz, b)
+				cfg := fmt.Sprintf("transform endpoint=%s jobType=%s supportContext=%v entities=%d batch=%d", mode, tc.jt, tc.ctx, sz, b)
 				if err := peerLoad(p.local, lds, sz, "tr"); err != nil {
 					res.Err = err.Error()
 					return
@@ -333,8 +344,8 @@ func peerRun() (res peerResult) {
 				}
 				id, err := p.addJob(map[string]interface{}{"id": fmt.Sprintf("tr-%d", n), "title": fmt.Sprintf("tr-%d", n), "paused": true, "batchSize": b,
 					"source":    map[string]interface{}{"Type": "DatasetSource", "Name": lds, "LatestOnly": true},
-					"transform": map[string]interface{}{"Type": "HttpTransform", "Url": p.srv.URL + "/transform"},
-					"sink":      map[string]interface{}{"Type": "DatasetSink", "Name": zds}, "triggers": trig("incremental")})
+					"transform": map[string]interface{}{"Type": "HttpTransform", "Url": p.srv.URL + "/transform", "SupportContext": tc.ctx},
+					"sink":      map[string]interface{}{"Type": "DatasetSink", "Name": zds}, "triggers": trig(tc.jt)})
 				if err != nil {
 					fail("C10:http-job-rejected|"+cfg, cfg+": the definition was rejected: "+err.Error())
 					continue
@@ -381,6 +392,18 @@ func peerRun() (res peerResult) {
 				}
 				if a, z := peerView(p.local, lds), peerView(p.local, zds); strings.Join(a, "\n") != strings.Join(z, "\n") {
 					fail("C10:http-transform-copy-differs|"+cfg, fmt.Sprintf("%s: with an identity transform endpoint the sink %v differs from the source %v", cfg, z, a))
+				}
+				if tc.jt == "fullsync" {
+					// the second run of a fullsync job hands everything to the endpoint and the sink again: nothing changes
+					before := peerFeedLen(p.local, zds)
+					p.reset()
+					if pn := run(id); pn != "" {
+						fail("C11:run-crashes-hub|"+cfg, cfg+": the second run panics: "+pn)
+						continue
+					}
+					if after := peerFeedLen(p.local, zds); after != before {
+						fail("C10:http-rerun-changes|"+cfg, fmt.Sprintf("%s: running the job again added %d changes to the sink although nothing changed", cfg, after-before))
+					}
 				}
 			}
 		}
